@@ -23,6 +23,10 @@ class Unsupported(Exception):
         super().__init__('unsupported: %s @L%s' % (msg, line))
 
 
+_LIT_CACHE = {}      # tuple of code points -> z3 literal term
+_LIT_BACK = {}       # z3 ast id -> (term kept alive, list of code points): the way back, for contract text that needs a Python string
+
+
 class RestartFunction(Unsupported):
     """The exploration of the current function has to start again (a loop body emitted events that the cut had not summarised;
     they are summarised from now on)."""
@@ -176,10 +180,18 @@ class Interp:
     def str_lit(self, s, kind='str'):
         """Literal as a unit/append term (so that concatenation and indexing axioms apply)."""
         if isinstance(s, str):
-            codes = [ord(c) for c in s]
+            codes = tuple(ord(c) for c in s)
         else:
-            codes = list(s)
-        return VSeq(T.SeqI.lit([z3.IntVal(c) for c in codes]), kind)
+            codes = tuple(s)
+        # literal terms are immutable: built once per distinct literal (profiling: building and re-reading string literals was
+        # 40% of the time spent on a function with a thousand paths)
+        cache = _LIT_CACHE
+        t = cache.get(codes)
+        if t is None:
+            t = T.SeqI.lit([z3.IntVal(c) for c in codes])
+            cache[codes] = t
+            _LIT_BACK[t.get_id()] = (t, list(codes))
+        return VSeq(t, kind)
 
     # ------------------------------------------------------------------------------------------
     # path conditions, branching, obligations
